@@ -33,7 +33,7 @@ SeqsUpTo(A, k) == IF k = 0 THEN {<<>>} ELSE LET S == SeqsUpTo(A, k - 1) IN S \cu
 \* STL: mutations of a valid file: [field, value-class]
 StlMutations ==
   {[f |-> f, v |-> v] : f \in {"dfc", "dsc", "cct", "lc", "cd", "rd", "rn", "tnb", "tns", "tng", "mnc", "mnr", "tcp", "tcf", "tnd", "dsn"},
-                        v \in {"blank", "letters", "zero", "max", "ff", "half-blank", "lead-blank"}}
+                        v \in {"blank", "letters", "zero", "max", "ff", "half-blank", "lead-blank", "negative", "plus-sign"}}
   \cup {[f |-> f, v |-> v] : f \in {"tti-ebn", "tti-tci", "tti-tco", "tti-vp", "tti-jc", "tti-cf", "tti-text"},
                              v \in {"zero", "ff", "control", "accent-first", "accent-last", "rowbreaks", "full"}}
   \cup {[f |-> "size", v |-> v] : v \in {"empty", "gsi-short", "gsi-only", "tti-short", "tti-plus-one"}}
@@ -42,7 +42,7 @@ StlMutations ==
 \* a tag name while the class list of one is a strict prefix of the other's (either way round), or differ in depth
 Shapes ==
   [meta : 0..1, styles : 0..4, regions : 0..4, iinl : 0..1, istyle : 0..2, iregion : 0..2, lines : 0..2, rinl : 0..5, rstyle : 0..1,
-   text : 0..8, stlpos : 0..1, tsmap : 0..1]
+   text : 0..11, stlpos : 0..1, tsmap : 0..1]
 
 \* the normative statement, evaluated on every recorded call
 \* "demuxer-crash": the third-party transport-stream demultiplexer itself panicked; the statement excludes
